@@ -46,18 +46,30 @@ def make(rng, cls):
     elif cls in ("asym4", "asym5", "asym6"):
         n = int(cls[-1])
         pool = ["C", "N", "O", "S", "Cl", "P", "H"]
-        for _ in range(500):
+        best = None
+        for attempt in range(4000):
             pos = rng.uniform(-1.9, 1.9, (n, 3))
             els = [pool[int(i)] for i in rng.integers(0, len(pool), n)]
-            if _min_dist(pos) < 1.0:
+            if _min_dist(pos) < 1.0:          # hard requirement: atoms of a molecule are never closer than this
                 continue
             D = np.sqrt(((pos[:, None, :] - pos[None, :, :]) ** 2).sum(-1))
             dd = np.sort(D[np.triu_indices(n, 1)])
-            if np.diff(dd).min() < 0.08:      # keep all pair distances apart: no accidental symmetry
+            # keep all pair distances apart (no accidental symmetry); the margin is relaxed if it cannot be met
+            margin = 0.08 if attempt < 1500 else (0.04 if attempt < 3000 else 0.0)
+            if np.diff(dd).min() < margin or abs(G.chirality(pos)) < 0.6:
+                if best is None:
+                    best = (els, pos)
                 continue
-            if abs(G.chirality(pos)) < 0.6:
-                continue
+            best = (els, pos)
             break
+        els, pos = best
+        chiral = True
+    elif cls == "close_pair":
+        # a pattern with two same-element atoms closer to each other than the larger tolerances (0.2, 0.5): one structure
+        # atom then satisfies every distance test for both of them - the search must still list distinct atoms
+        els = ["N", "C", "H", "H", "O"]
+        d = rng.uniform(0.12, 0.19)
+        pos = np.array([[0, 0, 0], [1.3, 0.2, 0], [0.4, 1.1, 0.3], [0.4 + d, 1.1, 0.3], [-0.9, -0.7, 0.8]], float)
         chiral = True
     elif cls in ("chiral4", "chiral5"):
         # a centre with distinct substituents in roughly tetrahedral directions
